@@ -210,8 +210,13 @@ def print_copybook(tree):
             if n["occ"][0] == "times":
                 parts.append(f"OCCURS {n['occ'][1]} TIMES")
             else:
-                parts.append(f"OCCURS 0 TO {n['occ'][2]} TIMES")
-                parts.append(f"DEPENDING ON N{n['occ'][1]}")
+                # the spellings the grammar allows: optional lower bound, optional TIMES, optional ON
+                v = n["id"] % 6
+                lower = "" if v in (1, 4) else "0 TO "
+                times = "" if v in (2, 4) else " TIMES"
+                on = "" if v in (3, 5) else " ON"
+                parts.append(f"OCCURS {lower}{n['occ'][2]}{times}")
+                parts.append(f"DEPENDING{on} N{n['occ'][1]}")
         if n["kind"] == "elem":
             parts.append(f"PIC {n['pic']}")
             if n["usage"] != "DISPLAY":
